@@ -273,7 +273,7 @@ def explore(ctx, props, features, n_programs, n_schedules, suite='engine_explore
                 ctx.fail(f['signature'], f['what'], {'kind': 'engine-explore', 'yaml': r['yaml'], 'oracle': r['oracle'], 'job': r['job'],
                                                      'meta': r['meta']})
     # schedule independence of the final summary (C02 / C05) for deterministic programs
-    if 'C02' in props or 'C05' in props:
+    if 'C02' in props or 'C05' in props or 'C10' in props:
         for gi, rs in by.items():
             m = rs[0]['meta']
             if 'cancel' in (m.get('outs') or []) or m.get('child_out') == 'cancel':
